@@ -508,3 +508,18 @@ func FileglobGlob(pattern string, opts ...fileglob.OptFunc) ([]string, error) {
 	}
 	return filesBeneath(n, nil), nil
 }
+
+// StatTime returns the unix mtime of an added path as the harness gave it (0 if unknown).
+func StatTime(path string) int64 {
+	if !zz.Symbolic() {
+		fi, err := os.Stat(filepath.Join(nativeRoot(), path))
+		if err != nil {
+			return 0
+		}
+		return fi.ModTime().Unix()
+	}
+	if n := find(path); n != nil {
+		return n.MTime.Unix()
+	}
+	return 0
+}
